@@ -29,7 +29,8 @@ ASSUMPTIONS = [
 
 def floors(tier):
     return {"evals": 150 if tier == "quick" else 3000, "distinct": 100,
-            "classes": {"with-exclusions": 40, "without-exclusions": 40, "goals>=20": 60, "has-non-root-goals": 100}}
+            "classes": {"with-exclusions": 40, "without-exclusions": 40, "goals>=20": 60, "has-non-root-goals": 100,
+                        "directed:await-or-yield-from-in-branch": 5}}
 
 
 def plan(tier, seed):
@@ -118,6 +119,43 @@ class K:
         for i in range(n):
             if i % 2:
                 yield i
+
+
+# await / yield from inside branches and loops: the SEND / YIELD_VALUE loop of 3.12 forms cycles of non-predicate CDG nodes
+async def fetch(x):
+    return x - 1
+
+
+async def poll(x):
+    while x:
+        x = await fetch(x)
+    return x
+
+
+async def two_step(x):
+    if x:
+        y = await fetch(x)
+        if y:
+            return y
+    return 0
+
+
+def relay(x, g):
+    if x:
+        y = yield from g
+        if y:
+            return y
+    return 0
+
+
+async def agen_user(src, limit):
+    async for item in src:
+        if item > limit:
+            break
+        async with item:
+            if limit:
+                limit -= 1
+    return limit
 '''
 
 
@@ -143,7 +181,7 @@ def _one(ctx, prog, source, modname, to_cover, tag, case):
     pool = bg.BranchGoalPool(sp)
     ffs = bg.create_branch_coverage_fitness_functions(None, pool)
     n_goals = len(ffs)
-    cl = [tag] + (["goals>=20"] if n_goals >= 20 else [])
+    cl = [tag] + (["goals>=20"] if n_goals >= 20 else []) + (["directed:await-or-yield-from-in-branch"] if "await fetch" in source else [])
     archive = StubArchive()
     try:
         manager = _GoalsManager(OrderedSet(ffs), archive, sp)
@@ -193,7 +231,7 @@ def run_chunk(spec, ctx):
 
     if spec["name"] == "directed":
         _one(ctx, "directed", DIRECTED, "vg_directed", config.ToCoverConfiguration(), "without-exclusions", {"program": "directed"})
-        for names in (["early"], ["K.m"], ["K"], ["spin", "K.gen"]):
+        for names in (["early"], ["K.m"], ["K"], ["spin", "K.gen"], ["poll"], ["two_step", "relay"]):
             _one(ctx, "directed", DIRECTED, "vg_directed_" + "_".join(n.replace(".", "") for n in names), config.ToCoverConfiguration(no_cover=list(names)), "with-exclusions",
                  {"program": "directed", "no_cover": names})
             _one(ctx, "directed", DIRECTED, "vg_directed_o_" + "_".join(n.replace(".", "") for n in names), config.ToCoverConfiguration(only_cover=list(names)), "with-exclusions",
